@@ -83,3 +83,23 @@ Definition layout (rows cols : Z) (prompt buf : list Z) (cpos : Z) : term * (Z *
   let t := fold_left put prompt (term_init rows cols) in
   let indent := snd (next_cell t) in
   layout_go indent t buf 0 cpos (next_cell t).
+
+(* ---- leaving the line: the relative cursor moves of display.Engine.AcceptLine, at the
+   level of the cursor cell of a screen `rows` x `cols` (term.MoveCursorUp/Down/Forwards/
+   Backwards print nothing for an argument below 1; CUU/CUD/CUF/CUB stop at the edges) *)
+Inductive cmove := MUp (n : Z) | MDown (n : Z) | MFwd (n : Z) | MBack (n : Z) | MCrLf.
+
+Definition do_move (rows cols : Z) (rc : Z * Z) (m : cmove) : Z * Z :=
+  let '(r, c) := rc in
+  match m with
+  | MUp n => if n <? 1 then rc else (zmax 0 (r - n), c)
+  | MDown n => if n <? 1 then rc else (zmin (rows - 1) (r + n), c)
+  | MFwd n => if n <? 1 then rc else (r, zmin (cols - 1) (c + n))
+  | MBack n => if n <? 1 then rc else (r, zmax 0 (c - n))
+  | MCrLf => (zmin (rows - 1) (r + 1), 0)          (* no scrolling: the caller keeps r + 1 < rows *)
+  end.
+
+(* CursorToLineStart; back to column 0; down lineRows; forward lineCol; (erase below);
+   back to column 0; CR LF *)
+Definition accept_line_moves (w cursor_col cursor_row start_cols line_rows line_col : Z) : list cmove :=
+  [MBack cursor_col; MUp cursor_row; MFwd start_cols; MBack w; MDown line_rows; MFwd line_col; MBack w; MCrLf].
